@@ -169,8 +169,9 @@ PROPS = {
             "leanchecker": ["GcpVerif.Proofs.GME"], "trusted_base": GME_TB,
             "assumptions": ["'within bounded time' is observed only through the monitor's notification being delivered by the harness"]},
     "C16": {"harnesses": ["gme"], "lake_targets": ["GcpVerif"],
-            "theorems": gme_thms(["failed_update_is_identity", "invalid_options_rejected", "dial_failure_rejected", "close_releases_all", "rpc_routes_current"]),
-            "leanchecker": ["GcpVerif.Proofs.GME"], "trusted_base": GME_TB, "assumptions": []},
+            "theorems": gme_thms(["failed_update_is_identity", "invalid_options_rejected", "dial_failure_rejected", "close_releases_all", "rpc_routes_current"]) +
+                        [("GcpVerif.Proofs.GME2", "GcpVerif.GME.rpc_total"), ("GcpVerif.Proofs.GME2", "GcpVerif.GME.reach_g")],
+            "leanchecker": ["GcpVerif.Proofs.GME", "GcpVerif.Proofs.GME2"], "trusted_base": GME_TB, "assumptions": []},
     "C12": {"harnesses": ["st"], "lake_targets": ["GcpVerif"],
             "theorems": [("GcpVerif.Proofs.Stream", "GcpVerif.Stream." + n) for n in
                          ["run_inv", "create_at_most_once", "recv_progress", "delegation_after_creation",
